@@ -998,17 +998,21 @@ def rule_fence(ck, facts):
         ck.incomplete(R, "ThreadFence::wait: expected exactly one condition_variable wait, found %d" % len(cw))
     else:
         c = cw[0]
-        if len(c.get("a", [])) >= 2:
-            # wait(lock, pred) == while(!pred()) wait(lock)
-            lam = strip(c["a"][1])
+        cname = c.get("callee", "").split("<")[0].rsplit("::", 1)[-1]
+        nargs = len(c.get("a", []))
+        has_pred = (cname == "wait" and nargs == 2) or (cname in ("wait_for", "wait_until") and nargs == 3)
+        if has_pred:
+            # wait(lock, pred) == while(!pred()) wait(lock); the timed forms re-test the predicate as
+            # well (that they can give up with the predicate false is E14.fence-wait-returns-open)
+            lam = strip(c["a"][-1])
             body = [x for x in (lam.get("body") or {}).get("s", [])] if lam.get("k") == "Lambda" and (lam.get("body") or {}).get("k") == "Block" else []
             # the predicate must read the live state member (through the captured `this`), not a copy
             # taken when the lambda was created (init-capture by value)
             reads = {this_field(x) for x in walk(body[0].get("e") or {})} & state if len(body) == 1 and body[0].get("k") == "Return" else set()
-            if len(body) == 1 and body[0].get("k") == "Return" and reads and c.get("callee", "").split("<")[0] == "std::condition_variable::wait":
+            if len(body) == 1 and body[0].get("k") == "Return" and reads:
                 pred_cond = {"k": "Un", "op": "!", "e": body[0]["e"], "t": body[0]["e"].get("t")}
                 ck.ob(R, "ThreadFence::wait/predicate-loop", True,
-                      "condition_variable::wait(lock, pred) re-tests the predicate `%s` (reads %s) after every wake-up" % (render(body[0]["e"]), sorted(reads)), w.file, c.get("l"))
+                      "condition_variable::%s(lock, ..., pred) re-tests the predicate `%s` (reads %s) after every wake-up" % (cname, render(body[0]["e"]), sorted(reads)), w.file, c.get("l"))
             else:
                 ck.incomplete(R, "ThreadFence::wait: predicate argument of condition_variable::wait is not a single-return lambda over the fence state")
         else:
@@ -1030,6 +1034,76 @@ def rule_fence(ck, facts):
                       w.file, c.get("l"))
             if loops and loops[0].get("k") in ("While", "For") and loops[0].get("c") is not None:
                 pred_cond = loops[0]["c"]
+
+    # --- wait() returns only after it has seen the fence open
+    R = "E14.fence-wait-returns-open"
+    try:
+        ctor_init = {i["member"]: i["init"] for i in ctor.d.get("inits", []) or [] if i.get("member") and i.get("init")}
+
+        def bool_env(assign):
+            e_ = Env()
+            for fld, v in assign.items():
+                v = strip(v)
+                if v.get("k") == "Bool":
+                    e_.fields[fld] = 1 if v["v"] else 0
+            return e_
+        env_open, env_closed = bool_env(method_assigns(meth["open"])), bool_env(method_assigns(meth["close"]))
+        for fld, v in bool_env(ctor_init).fields.items():
+            env_closed.fields.setdefault(fld, v)
+        waits_ = [n for n in w.nodes() if n.get("k") == "MCall" and n.get("callee", "").startswith("std::condition_variable::wait")]
+        establishing, cut = [], []
+
+        def pred_of(n):
+            """value of the predicate lambda of a predicate wait under an environment, or None"""
+            nm = n.get("callee", "").split("<")[0].rsplit("::", 1)[-1]
+            na = len(n.get("a", []))
+            if not ((nm == "wait" and na == 2) or (nm in ("wait_for", "wait_until") and na == 3)):
+                return None, nm
+            lam = strip(n["a"][-1])
+            body = (lam.get("body") or {}).get("s", []) if lam.get("k") == "Lambda" else []
+            if len(body) != 1 or body[0].get("k") != "Return" or body[0].get("e") is None:
+                raise Unknown("predicate of %s at line %s is not a single-return lambda" % (nm, n.get("l")))
+            return body[0]["e"], nm
+        for n in waits_:
+            pe, nm = pred_of(n)
+            if pe is None:
+                continue
+            vo, vc = ev(w, pe, env_open), ev(w, pe, env_closed)
+            if not (vo and not vc):
+                continue                # not the `fence is open` predicate: establishes nothing
+            if nm == "wait":
+                establishing.append(n["i"])         # returns only with the predicate true
+            else:
+                # returns the predicate's value: true after open(), false after a timeout
+                env_open.callvals[n["i"]] = 1
+                env_closed.callvals[n["i"]] = 0
+        for b in fx.cfg.blocks.values():
+            if b.get("cond") is None or len(b.get("succ", [])) != 2:
+                continue
+            cnd = w.by_id(b["cond"])
+            if cnd is None:
+                continue
+            try:
+                vo, vc = ev(w, cnd, env_open), ev(w, cnd, env_closed)
+            except Unknown:
+                continue
+            if bool(vo) != bool(vc):
+                s_open = b["succ"][0 if vo else 1]
+                if s_open is not None:
+                    cut.append((b["id"], s_open))   # the edge taken when the fence is open
+        if not cut and not establishing and not waits_:
+            raise Unknown("neither a test of the fence state nor a condition-variable wait found in wait()")
+        if opaque_calls(fx):
+            raise Unknown("wait() calls helpers")
+        esc = fx.reach((fx.cfg.entry, 0), target_blocks=[fx.cfg.exit], avoid_stmts=establishing, cut_edges=cut, avoid_blocks=fx.cfg.noreturn_blocks())
+        timed = [n for n in waits_ if not n.get("callee", "").split("<")[0].endswith("::wait")]
+        ck.ob(R, "ThreadFence::wait/returns-open", esc is None,
+              "every path to a return of wait() takes the `fence is open` edge of a state test, or passes an untimed predicate wait, under the fence mutex" if esc is None
+              else "wait() can return without ever having seen the fence open%s: the callers take the result for the status set by open() - a worker treats `false` as a failed neighbour and drops its remaining cells, `true` lets it scatter next to a neighbour that has not finished" % (
+                  " (the timed %s at line %s gives up with the predicate still false and that path reaches a return)" % (timed[0].get("callee", "").split("<")[0].rsplit("::", 1)[-1], timed[0].get("l")) if timed else ""),
+              w.file, (timed[0] if timed else (waits_[0] if waits_ else w.body)).get("l"))
+    except Unknown as e:
+        ck.incomplete(R, "ThreadFence::wait: %s" % e)
 
     # --- state machine: ctor/close block, open releases; okay round trip
     R = "E14.fence-state-machine"
@@ -3218,6 +3292,7 @@ RULES = [
     ("E14.fence-guarded", "ThreadFence: every read/write of a state member (_open/_okay) in wait/open/close - including private helpers they call, where the lock may be held in the helper or at its call - is dominated by a live lock on the fence mutex. Broken for: any two threads using one fence concurrently (data race on the flags, missed updates).", 6),
     ("E14.fence-one-mutex", "ThreadFence: wait, open and close lock one and the same mutex (the one the condition wait releases). Broken for: opener and waiter running concurrently.", 1),
     ("E14.fence-wait-loop", "ThreadFence::wait: after condition_variable::wait returns, the closed-predicate is re-tested by a loop condition on every path to the return (wait(lock, pred) with a predicate lambda over the live state is the same loop). Broken for: spurious wake-ups / notify of an earlier phase (a worker passes a closed fence and scatters next to its neighbour).", 1),
+    ("E14.fence-wait-returns-open", "ThreadFence::wait: every path to a return has seen the fence open under the lock - it leaves a state test by its `open` edge or passes an untimed predicate wait; a timed wait (wait_for/wait_until) may only be used where its timeout leads back to the test, never to a return. Broken for: any schedule in which a thread waits longer than the timeout (large layers, stalled worker): wait() reports a status nobody set, the caller gives up and its remaining cells are never assembled.", 1),
     ("E14.fence-state-machine", "ThreadFence: constructor and close() make the wait predicate true (blocking), open() makes it false. Broken for: every multi-threaded job (deadlock or no synchronisation at all).", 3),
     ("E14.fence-okay-roundtrip", "ThreadFence: wait() returns the member that open(okay) stores its argument in. Broken for: a job in which one worker fails (the others never learn and wait forever / continue next to a dead neighbour).", 1),
     ("E14.fence-notify", "ThreadFence::open: notify_all on the condition variable wait() sleeps on is passed on every path, and not before the state is set unless the fence mutex is held at the notify. Broken for: a waiter already sleeping when the fence is opened (lost wake-up, deadlock).", 1),
@@ -3231,6 +3306,7 @@ RULES = [
     ("E14.wait-result-checked", "every ThreadFence::wait() in a reachable worker variant (or in a member helper that returns its result, followed to the caller) leads to `return false` on a false result before any further task/fence operation. Broken for: a job in which another worker fails (exception in a task): this worker would continue/deadlock instead of terminating.", 12),
     ("E14.failure-opens-fence", "Worker::operator(): the status starts false, is set only from the work functions, and every path to the end with a false status opens the worker's own fence with false. Broken for: a failing worker whose neighbour (layered) or master (coloured) waits on its fence: deadlock.", 5),
     ("E5.range-partition", "single / no-scatter / coloured variants: the ranges [beg(id), end(id)) of ids 1..n abut, start at the lower and end at the upper end of the index interval the variant is responsible for ([0,size) resp. the colour interval), for every enumerated worker count and symbolically (sympy, floor division); the round loop visits every colour interval. Broken for: worker counts that do not divide the cell count (cells skipped or assembled twice).", 10),
+    ("E5.reduction-operator", "equals the serial result: for every Task::combine() (driver tu/c17_reduction.cpp: the four combining jobs, scalar and blocked) the reduction call reduces the task-local object into the job's object, a task with a non-empty combine() declares need_combine, and the reduction function combines every field of the result class with the same field of the other object by the very operator the per-cell accumulation uses for that field (+= fields by +, max fields by max; static helpers followed with parameters bound); a field that is accumulated but not combined is a violation. Broken for: jobs with need_combine on >= 2 workers (vector-valued functions for the per-component fields): the value depends on the number of workers.", 33),
     ("E5.thread-layers-ends", "_build_thread_layers asserts thread_layers.front() == 0 and .back() == number of layers. Broken for: layered strategy (first/last layers not assembled).", 1),
     ("E7.join-all-exits", "assemble(): every path from the creation of the threads to a normal return passes a loop joining every thread and then clears the thread vector. Broken for: any threaded job (result used while workers still scatter; next job aborts).", 5),
     ("E7.fences-closed-before-start", "assemble(): a loop closing every fence dominates the creation of the worker threads. Broken for: the second job on one assembler (fences left open by the first job release workers early).", 5),
@@ -3322,6 +3398,7 @@ def run(tier):
                 ck.incomplete("E2.layer-sort-range", "layer offsets member not identified")
     for tag, extra in variants:
         rule_pool_free(ck, extra, tag)
+        rule_reduction(ck, extra, tag)
     ck.assume("worker ids / worker counts are enumerated up to %d; the dispatch conditions and assertions compare them with constants <= 2, so larger values behave like %d" % (NMAX, NMAX))
     ck.assume("the master's loops over `_threads.size()` run over the same index set as the creation loop over the worker count (one emplace_back per iteration)")
     ck.assume("mutual exclusion is provided by std::mutex/std::unique_lock/std::condition_variable as specified; lock objects live until the end of their block")
@@ -3333,6 +3410,323 @@ def run(tier):
         "CFG path rules of the layered neighbour handshake; sympy normal forms of the element ranges (partition); join/clear/close discipline of assemble(); unsigned wrap of the worker count in the layer builder.",
         trusted_base=["clang 14 front end (AST, template instantiation, CFG)", "featx plugin fact extraction", "sympy (floor/integer simplification), networkx (transitive closure)", "driver tu/c17_domain_assembler.cpp (5 jobs covering need_scatter x need_combine)"])
 
+
+
+# -------------------------------------------------------------------------------------------------
+# equals the serial result: the reduction in combine() uses, field by field, the operator of the
+# per-cell accumulation
+# -------------------------------------------------------------------------------------------------
+
+RED_FILES = featlib.repo_path("kernel/assembly/function_integral_jobs.hpp") + "|" + featlib.repo_path("kernel/assembly/basic_assembly_jobs.hpp") + "|/verif/tu/c17_red"
+ASSIGN_OPS = ("=", "+=", "-=", "*=", "/=")
+
+
+def elem_root(n):
+    """(root node, rendered element path) of an lvalue: `F`, `F[i]`, `F(i,j)`, `F.at(i)` -> root F"""
+    path = []
+    n = strip(n)
+    hops = 0
+    while n is not None and hops < 6:
+        hops += 1
+        if n.get("k") == "OpCall" and n.get("op") in ("[]", "()") and n.get("a"):
+            path.append("[%s]" % ",".join(render(strip(a)) for a in n["a"][1:]))
+            n = strip(n["a"][0])
+        elif n.get("k") == "Index":
+            path.append("[%s]" % render(strip(n["idx"])))
+            n = strip(n["b"])
+        elif n.get("k") == "MCall" and n.get("n") in ("at", "operator[]") and n.get("obj") is not None:
+            path.append("[%s]" % ",".join(render(strip(a)) for a in n.get("a", [])))
+            n = strip(n["obj"])
+        else:
+            break
+    return n, "".join(reversed(path))
+
+
+def same_lvalue(a, b):
+    ra, pa = elem_root(a)
+    rb, pb = elem_root(b)
+    if ra is None or rb is None or pa != pb:
+        return False
+    if ra.get("k") == "Member" and rb.get("k") == "Member":
+        return ra.get("qn") == rb.get("qn") and render(strip(ra.get("b") or {})) == render(strip(rb.get("b") or {}))
+    if ra.get("k") == "Ref" and rb.get("k") == "Ref":
+        return ra.get("d") == rb.get("d")
+    return False
+
+
+def classify_update(st):
+    """(target lvalue node, operator, contribution node) of an assignment-like statement, else None.
+    operator: SUM (`t += c`, `t = t + c`), MAX / MIN (`t = max(t, c)`), RESET (`t = literal`),
+    SET (any other plain assignment), OTHER (`-=`, `*=`, ...)"""
+    if st.get("k") == "Assign":
+        lhs, rhs, op = st["lhs"], st["rhs"], st.get("op")
+    elif st.get("k") == "OpCall" and st.get("op") in ASSIGN_OPS and len(st.get("a", [])) == 2:
+        lhs, rhs, op = st["a"][0], st["a"][1], st["op"]
+    else:
+        return None
+    if op == "+=":
+        return lhs, "SUM", rhs
+    if op != "=":
+        return lhs, "OTHER", rhs
+    r = strip(rhs)
+    if r.get("k") == "Call" and re.search(r"(^|::)(max|min)$", (r.get("callee") or "").split("<")[0]) and len(r.get("a", [])) == 2:
+        kind = "MAX" if (r["callee"].split("<")[0]).endswith("max") else "MIN"
+        for mine, other in ((r["a"][0], r["a"][1]), (r["a"][1], r["a"][0])):
+            if same_lvalue(mine, lhs):
+                return lhs, kind, other
+        return lhs, "SET", rhs
+    if r.get("k") in ("Bin", "OpCall") and r.get("op") == "+":
+        l_, r_ = (r["lhs"], r["rhs"]) if r["k"] == "Bin" else (r["a"][0], r["a"][1]) if len(r.get("a", [])) == 2 else (None, None)
+        if l_ is not None:
+            for mine, other in ((l_, r_), (r_, l_)):
+                if same_lvalue(mine, lhs):
+                    return lhs, "SUM", other
+    lit = r
+    hops = 0
+    while lit.get("k") in ("Construct", "TempObj", "Cast") and hops < 4:
+        hops += 1
+        inner = lit.get("a", [None])[0] if lit.get("k") != "Cast" else lit.get("e")
+        if inner is None or (lit.get("k") != "Cast" and len(lit.get("a", [])) != 1):
+            break
+        lit = strip(inner)
+    if lit.get("k") in ("Int", "Float", "Bool"):
+        return lhs, "RESET", rhs
+    return lhs, "SET", rhs
+
+
+def guarded_extremum(cond, tgt, src):
+    """MAX / MIN if `cond` true means that src is larger / smaller than tgt (`tgt < src`, `src > tgt`,
+    `!(tgt >= src)` ...), i.e. `if(cond) tgt = src;` is tgt = max/min(tgt, src); else None"""
+    c = strip(cond)
+    neg = False
+    while c.get("k") == "Un" and c.get("op") == "!":
+        c, neg = strip(c["e"]), not neg
+    if c.get("k") != "Bin" or c.get("op") not in ("<", ">", "<=", ">="):
+        return None
+    l, r, op = c["lhs"], c["rhs"], c["op"]
+    if neg:
+        op = {"<": ">=", ">": "<=", "<=": ">", ">=": "<"}[op]
+    if same_lvalue(l, tgt) and render(strip(r)) == render(strip(src)):
+        pass
+    elif same_lvalue(r, tgt) and render(strip(l)) == render(strip(src)):
+        op = {"<": ">", ">": "<", "<=": ">=", ">=": "<="}[op]
+    else:
+        return None
+    return "MAX" if op in ("<", "<=") else "MIN"         # tgt < src -> take src: maximum
+
+
+def updates_of(facts_by_full, fn, depth=0):
+    """assignment-like effects of fn: [(target lvalue node, operator, contribution node, line)];
+    calls of helpers defined in the fact base that receive an lvalue by non-const reference are
+    replaced by the helper's effects on that parameter, with its other parameters bound"""
+    out = []
+    # `if(t < c) t = c;` and `t = (t < c) ? c : t` are the maximum / minimum
+    idiom = {}
+    for n in fn.nodes():
+        if n.get("k") == "If" and n.get("else") is None:
+            th = n.get("then")
+            while th is not None and th.get("k") == "Block" and len(th.get("s", [])) == 1:
+                th = th["s"][0]
+            u = classify_update(th) if th is not None and th.get("k") in ("Assign", "OpCall") else None
+            if u is not None and u[1] == "SET":
+                k_ = guarded_extremum(n["c"], u[0], u[2])
+                if k_ is not None:
+                    idiom[id(th)] = (u[0], k_, u[2])
+        elif n.get("k") in ("Assign", "OpCall"):
+            u = classify_update(n)
+            r_ = strip(u[2]) if u is not None and u[1] == "SET" else None
+            if r_ is not None and r_.get("k") == "Cond":
+                for keep, take, flip in ((r_["else"], r_["then"], False), (r_["then"], r_["else"], True)):
+                    if same_lvalue(keep, u[0]):
+                        k_ = guarded_extremum(r_["c"], u[0], take)
+                        if k_ is not None:
+                            idiom[id(n)] = (u[0], ({"MAX": "MIN", "MIN": "MAX"}[k_] if flip else k_), take)
+    for n in fn.nodes():
+        u = classify_update(n) if n.get("k") in ("Assign", "OpCall") else None
+        if u is not None:
+            u = idiom.get(id(n), u)
+            out.append((u[0], u[1], u[2], n.get("l")))
+            continue
+        if n.get("k") in ("Call", "MCall") and n.get("a") and not re.search(r"(^|::)(max|min|abs|sqr|sqrt)$", (n.get("callee") or "").split("<")[0]):
+            h = facts_by_full.get(n.get("cfull") or "")
+            pts = [fn.type(t) or "" for t in n.get("pt", [])]
+            refs = [i for i, t in enumerate(pts) if t.rstrip().endswith("&") and not t.lstrip().startswith("const") and i < len(n["a"])]
+            if not refs:
+                continue
+            if h is None or h.body is None or depth >= 2 or len(h.params) != len(n["a"]):
+                for i in refs:
+                    out.append((n["a"][i], "UNKNOWN", None, n.get("l")))
+                continue
+            pidx = {p_["d"]: i for i, p_ in enumerate(h.params)}
+            for tgt, op, contrib, l in updates_of(facts_by_full, h, depth + 1):
+                rt, pt_ = elem_root(tgt)
+                if rt is None or rt.get("k") != "Ref" or rt.get("d") not in pidx:
+                    continue            # local of the helper
+                i = pidx[rt["d"]]
+                c_arg = None
+                if contrib is not None:
+                    rc, pc = elem_root(contrib)
+                    if rc is not None and rc.get("k") == "Ref" and rc.get("d") in pidx and pc == pt_:
+                        c_arg = n["a"][pidx[rc["d"]]]
+                out.append((n["a"][i], op if (contrib is None or c_arg is not None or op in ("RESET",)) else "SET", c_arg, n.get("l")))
+    return out
+
+
+def top_args(t):
+    """top-level template arguments of a type name"""
+    if "<" not in t:
+        return []
+    inner = t[t.index("<") + 1:t.rindex(">")]
+    out, depth, cur = [], 0, ""
+    for ch in inner:
+        if ch == "<":
+            depth += 1
+        elif ch == ">":
+            depth -= 1
+        if ch == "," and depth == 0:
+            out.append(cur.strip())
+            cur = ""
+        else:
+            cur += ch
+    if cur.strip():
+        out.append(cur.strip())
+    return out
+
+
+def rule_reduction(ck, extra, tag):
+    R = "E5.reduction-operator"
+    facts = featlib.extract("tu/c17_reduction.cpp", files=RED_FILES, cfg=False, extra=extra)
+    ck.tu(facts)
+    errs = [e for e in facts.diags]
+    if errs:
+        ck.incomplete(R, "driver tu/c17_reduction.cpp%s does not compile: %s:%s %s" % (tag, errs[0]["file"], errs[0]["line"], errs[0]["msg"]))
+        return
+    by_full = {}
+    for f in facts.functions:
+        by_full.setdefault(f.full, f)
+    short = lambda cls: re.sub(r"FEAT::(Assembly|Tiny|LAFEM|Analytic|Space|Trafo|Geometry|Shape)::", "", cls)
+    # 1. the reduction calls: combine() of every task class
+    reducers = {}          # full name of the reduction function -> [task names]
+    tasks = [f for f in facts.functions if f.name == "combine" and f.cls.endswith("::Task")]
+    if not tasks:
+        ck.incomplete(R, "no Task::combine() in the fact base%s" % tag)
+        return
+    flags = {}
+    for f in facts.functions:
+        for n in f.nodes():
+            if n.get("k") == "Ref" and n.get("dk") == "smember" and "v" in n and (n.get("qn") or "").endswith("::need_combine"):
+                flags[n["qn"].rsplit("::", 1)[0]] = int(n["v"])
+    for cb in sorted(tasks, key=lambda f: f.cls):
+        job = short(cb.cls).split("<")[0]
+        vt = re.search(r"LAFEM::(DenseVector(Blocked)?)<", cb.cls)
+        tname = "%s%s::Task" % (job, "<%s>" % vt.group(1) if vt else "")
+        ctor = next((f for f in facts.functions if f.cls == cb.cls and f.d.get("ctor") and f.d.get("inits")), None)
+        inits = {i["member"]: i.get("init") for i in (ctor.d.get("inits") or []) if i.get("member")} if ctor is not None else {}
+        job_level = lambda m: m in inits and inits[m] is not None and any(x.get("k") == "Ref" and x.get("dk") == "param" for x in walk(inits[m]))
+        sts = (cb.body or {}).get("s", [])
+        if sts:
+            # Worker code calls combine() only `if(task->need_combine)`
+            if cb.cls not in flags:
+                ck.incomplete(R, "%s%s: need_combine not exposed by the driver" % (tname, tag))
+            else:
+                ck.ob(R, "%s%s/need_combine" % (tname, tag), flags[cb.cls] == 1,
+                      "combine() reduces a task-local result and Task::need_combine is %s%s" % (bool(flags[cb.cls]), "" if flags[cb.cls] else ": the workers never call combine(), the per-thread results are dropped"),
+                      cb.file, cb.line)
+        for st in sts:
+            st_ = strip(st)
+            recv, arg = this_field(st_.get("obj")) if st_.get("k") == "MCall" else None, None
+            if st_.get("k") == "MCall" and len(st_.get("a", [])) == 1:
+                arg = this_field(st_["a"][0])
+            g = by_full.get(st_.get("cfull") or "") if st_.get("k") == "MCall" else None
+            if recv is None or arg is None or g is None or len(g.params) != 1 or g.cls not in (g.type(g.params[0]["t"]) or ""):
+                ck.incomplete(R, "%s%s::combine(): statement `%s` (line %s) is not `job_object.reduce(task_local_object)` with a reduction defined in the analysed headers" % (tname, tag, render(st)[:80], st.get("l")))
+                continue
+            reducers.setdefault(g.full, []).append(tname)
+            if ctor is None:
+                ck.incomplete(R, "%s%s: constructor with member initialisers not found (roles of %s / %s)" % (tname, tag, recv, arg))
+                continue
+            ok = job_level(recv) and not job_level(arg)
+            ck.ob(R, "%s%s::combine/%s<-%s" % (tname, tag, recv, arg), ok,
+                  "combine() reduces the task-local `%s` into the job's `%s` (bound to the job in the task constructor)" % (arg, recv) if ok
+                  else "combine() calls %s.%s(%s), but `%s` is %s and `%s` is %s: the per-thread result is not reduced into the job's result object (threaded result != serial result)" % (
+                      recv, g.name, arg, recv, "the job's object" if job_level(recv) else "task-local", arg, "the job's object" if job_level(arg) else "task-local"),
+                  cb.file, st.get("l"))
+    # 2. field by field: accumulation operator vs reduction operator
+    for gfull in sorted(reducers):
+        g = by_full[gfull]
+        cls = g.cls
+        targs = top_args(short(cls))
+        ctag = "%s[value=%s]" % (short(cls).split("<")[0], targs[1].replace(" ", "") if len(targs) > 1 else ",".join(targs))
+        other = g.params[0]["d"]
+        field_of = lambda n: (n.get("qn").rsplit("::", 1)[1] if n is not None and n.get("k") == "Member" and (n.get("qn") or "").rsplit("::", 1)[0] == cls else None)
+        # reduction side
+        red, red_unknown = {}, []
+        for tgt, op, contrib, l in updates_of(by_full, g):
+            rt, pt_ = elem_root(tgt)
+            F = field_of(rt)
+            if F is None or strip(rt.get("b") or {}).get("k") != "This":
+                if rt is not None and rt.get("k") == "Ref" and rt.get("dk") == "local":
+                    continue
+                red_unknown.append("line %s: `%s`" % (l, render(tgt)[:50]))
+                continue
+            src = None
+            if contrib is not None:
+                rc, pc = elem_root(contrib)
+                if field_of(rc) is not None and strip(rc.get("b") or {}).get("k") == "Ref" and strip(rc["b"]).get("d") == other and pc == pt_:
+                    src = field_of(rc)
+            red.setdefault(F, []).append((op, src, l))
+        opaque = [n for n in g.nodes() if is_call(n) and any(strip(a).get("k") == "This" or (strip(a).get("k") == "Un" and strip(a).get("op") == "*" and strip(strip(a)["e"]).get("k") == "This") for a in n.get("a", []))]
+        # accumulation side: every other function that updates a field of an object of this class
+        acc = {}
+        for f in facts.functions:
+            if f.full == g.full or (f.cls == cls and (f.d.get("ctor") or f.d.get("dtor") or f.name.startswith("operator"))):
+                continue
+            if f.cls == cls and any(re.sub(r"^const |\s*&+$", "", (f.type(p_["t"]) or "").strip()) == cls for p_ in f.params):
+                continue            # another merge-like member
+            if f.d.get("static") and f.cls == cls:
+                continue            # helpers are judged where they are called
+            for tgt, op, contrib, l in updates_of(by_full, f):
+                rt, _p = elem_root(tgt)
+                F = field_of(rt)
+                if F is not None and op in ("SUM", "MAX", "MIN", "OTHER", "UNKNOWN"):
+                    acc.setdefault(F, []).append((op, "%s() line %s" % (f.name, l)))
+        if not acc:
+            ck.incomplete(R, "%s%s: no accumulation of a field of the class found in the driver's instantiations" % (ctag, tag))
+            continue
+        for F in sorted(acc):
+            key = "%s%s::%s/%s" % (ctag, tag, g.name, F)
+            aops = sorted({o for o, _ in acc[F]})
+            where = ", ".join(sorted({w_ for _, w_ in acc[F]})[:3])
+            if len(aops) != 1 or aops[0] not in ("SUM", "MAX", "MIN"):
+                ck.incomplete(R, "%s: the field is accumulated by %s (%s): no single associative operator" % (key, aops, where))
+                continue
+            aop = aops[0]
+            rops = red.get(F, [])
+            if not rops:
+                if red_unknown or opaque:
+                    ck.incomplete(R, "%s: no reduction of the field recognised in %s(), but it contains constructs that are not modelled (%s)" % (key, g.name, (red_unknown or ["`this` handed to a callee"])[0]))
+                    continue
+                ck.ob(R, key, False, "%s() never combines %s, which the cell loop accumulates with %s (%s): the per-thread partial results of this field are lost - with >= 2 workers the job's value is not the serial one" % (g.name, F, aop, where), g.file, g.line)
+                continue
+            bad = []
+            for op, src, l in rops:
+                if op not in ("SUM", "MAX", "MIN"):
+                    bad.append(("unknown", "line %s" % l))
+                elif src != F:
+                    bad.append(("field", "line %s combines %s with other.%s" % (l, F, src)))
+                elif op != aop:
+                    bad.append(("op", "line %s combines by %s" % (l, op)))
+            if any(b_[0] == "unknown" for b_ in bad) and not any(b_[0] in ("op", "field") for b_ in bad):
+                ck.incomplete(R, "%s: the reduction statement at %s is not an operator form that is modelled" % (key, bad[0][1]))
+                continue
+            ok = not bad and len(rops) == 1
+            if not bad and len(rops) != 1:
+                bad.append(("twice", "the field is combined %d times (lines %s)" % (len(rops), [l for _, _, l in rops])))
+            ck.ob(R, key, ok,
+                  "%s is accumulated with %s (%s) and %s() combines this.%s with other.%s by %s" % (F, aop, where, g.name, F, F, aop) if ok
+                  else "%s is accumulated per cell with %s (%s), but %s(): %s. The combine step of >= 2 workers then yields a value that depends on the number of workers (e.g. the sum of the per-thread maxima) instead of the serial result" % (
+                      F, aop, where, g.name, "; ".join(b_[1] for b_ in bad)),
+                  g.file, rops[0][2])
 
 # -------------------------------------------------------------------------------------------------
 # layered_sorted: sorting must stay inside one layer
